@@ -175,6 +175,10 @@ type View struct {
 	RefToSym []int
 	NStates  int
 	Err, Acc int
+	// RulesDiffer: the symbols map one to one but the rule list yaccgo works on is not the rule list of
+	// the specification (NewView then returns the view TOGETHER with an error): token-level behaviour can
+	// still be compared with the specification's language, rule numbers cannot
+	RulesDiffer bool
 }
 
 // NewView maps symbols by name and checks that the rule list yaccgo works on
@@ -228,9 +232,13 @@ func NewView(v *parser.RootVistor, g *ref.Grammar) (*View, error) {
 			return nil, fmt.Errorf("specification symbol %q is missing in yaccgo", g.Names[rid])
 		}
 	}
+	vw.NStates = len(v.G.LR0.LR0Closure)
+	vw.Err = v.GenErrorCode()
+	vw.Acc = v.GenAcceptCode()
 	rules := v.G.ProductoinRules
 	if len(rules) != len(g.Rules) {
-		return nil, fmt.Errorf("yaccgo has %d rules, the specification %d", len(rules)-1, len(g.Rules)-1)
+		vw.RulesDiffer = true
+		return vw, fmt.Errorf("yaccgo has %d rules, the specification %d", len(rules)-1, len(g.Rules)-1)
 	}
 	for i, r := range rules {
 		rr := g.Rules[i]
@@ -243,7 +251,8 @@ func NewView(v *parser.RootVistor, g *ref.Grammar) (*View, error) {
 			}
 		}
 		if !same {
-			return nil, fmt.Errorf("rule %d differs: yaccgo has %s, the specification %s", i, ruleText(v, i), g.RuleString(i))
+			vw.RulesDiffer = true
+			return vw, fmt.Errorf("rule %d differs: yaccgo has %s, the specification %s", i, ruleText(v, i), g.RuleString(i))
 		}
 	}
 	vw.NStates = len(v.G.LR0.LR0Closure)
